@@ -658,6 +658,36 @@ func (c *Ctx) flatReturnsDepth(fn *ssa.Function, depth int) []flatReturn {
 				}
 			}
 		}
+		// results merged just before the return (`t := dflt; if c { t = x }; return t`): one
+		// alternative per incoming edge of the merge
+		var blk *ssa.BasicBlock
+		for _, v := range r.Results {
+			if ph, ok := v.(*ssa.Phi); ok && ph.Block() == r.Block() && !isLoopHeader(ph.Block()) {
+				blk = ph.Block()
+			}
+		}
+		if blk != nil && len(blk.Preds) <= 12 {
+			for i, pred := range blk.Preds {
+				pd := pc.canonOf(pc.At(pred))
+				if pd.unknown {
+					pd = mkDNF(pc.Must(pred))
+				}
+				ec := andDNF(pd, dnf{cs: pc.edgeDNF(pred, blk)})
+				if len(ec.cs) == 0 && !ec.unknown {
+					continue
+				}
+				fr := flatReturn{ret: r, cond: ec}
+				for _, v := range r.Results {
+					if ph, ok := v.(*ssa.Phi); ok && ph.Block() == blk {
+						fr.terms = append(fr.terms, c.term(fn, ph.Edges[i]))
+					} else {
+						fr.terms = append(fr.terms, c.term(fn, v))
+					}
+				}
+				out = append(out, fr)
+			}
+			continue
+		}
 		fr := flatReturn{ret: r, cond: cond}
 		for _, v := range r.Results {
 			fr.terms = append(fr.terms, c.term(fn, v))
